@@ -74,7 +74,7 @@ def build(desc):
             if nm in desc.get("time_dependent", []):
                 dims = dims + ["time"]
             shp = [ds.sizes[d] for d in dims]
-            ds[nm] = (dims, r.integers(1, 9, size=shp).astype(float))
+            ds[nm] = (dims, r.integers(1, 33, size=shp).astype(float) / 4)  # non-uniform quarter-integers: products/halves stay exact
             names.append(nm)
         mets[tuple(sub)] = names
     g = Grid(ds, coords=cm, periodic=desc["periodic"], autoparse_metadata=False, metrics=mets)
